@@ -29,7 +29,7 @@ EXPLANATION = ('(1) hand-off lemma: the real run_auth_scripts / run_script with 
                'exact, and the state handed to the next script is clean (no return flag, pointer 0, shared stack/cache/definitions/'
                'call count); (2) return-flag invariant for one step of every opcode; (3) end-to-end: real nested execution of '
                'witness/lock programs against the channel oracle (run_script + run_tape composed by hand)')
-MUST_REACH = ['handoff_true', 'handoff_false', 'handoff_raise', 'handoff_returned', 'step_returned', 'e2e_true', 'e2e_false']
+MUST_REACH = ['call_resumed', 'handoff_true', 'handoff_false', 'handoff_raise', 'handoff_returned', 'step_returned', 'e2e_true', 'e2e_false']
 
 
 # ------------------------------------------------------------------------------ (1) hand-off lemma
@@ -118,6 +118,24 @@ def h_step_flag(c, pkg, op, lens):
                 op == 'OP_RETURN' or any(b.returned for b in summ.bodies), op=str(op))
     if r[0] == 'ok' and op in ('OP_CALL', 'OP_EVAL', 'OP_LOOP') and not has:
         c.reach('step_consumed')
+    if op == 'OP_CALL' and r[0] == 'ok' and summ.bodies:
+        # the frame that made the call resumes where it was: a definition is one shared Tape object, so a (recursive) call
+        # must put its position back whether the callee ran off its end or returned
+        c.check('call_restores_position_of_calling_frame', st.def_tape.pointer == st.def_pointer,
+                returned=bool(summ.bodies[0].returned))
+        c.reach('call_resumed')
+
+
+def r_step_flag(inputs, params, obligation):
+    res = vmstep.concrete_generic_step(inputs, params)
+    r, cache, tape, bodies = res['r'], res['cache'], res['tape'], res['summ'].bodies
+    op = params['op']
+    has = 'returned' in cache
+    bad = {'return_flag_only_with_terminated_tape': has and tape.pointer != len(tape.data),
+           'return_flag_only_if_a_body_returned_or_op_is_return': has and not (op == 'OP_RETURN' or any(b.returned for b in bodies)),
+           'call_restores_position_of_calling_frame': op == 'OP_CALL' and r[0] == 'ok' and bool(bodies) and
+           res['def_tape'].pointer != res['def_pointer']}
+    return {'reproduced': bool(bad.get(obligation)), 'outcome': repr(r)[:160], 'def_pointer': (res['def_pointer'], res['def_tape'].pointer)}
 
 
 # ------------------------------------------------------------------------------ (3) end-to-end programs
@@ -253,6 +271,6 @@ def _sig(v):
 
 HARNESSES = [
     HarnessSpec('handoff', h_handoff, _p_handoff, replay=r_handoff, signature=_sig),
-    HarnessSpec('step_flag', h_step_flag, _p_step),
+    HarnessSpec('step_flag', h_step_flag, _p_step, replay=r_step_flag, signature=_sig),
     HarnessSpec('e2e', h_e2e, _p_e2e, replay=r_e2e, concrete=c_e2e, witness_every=5, signature=_sig),
 ]
